@@ -96,7 +96,7 @@ class ModelicaMixin(OptimizationProblem):
 
         # Initialize nominals and types
         # These are not in @cached dictionary properties for backwards compatibility.
-        self.__python_types = AliasDict(self.alias_relation)
+        self.__python_types = AliasDict(self.alias_relation, signed_values=False)
         for v in itertools.chain(
             self.__pymoca_model.states, self.__pymoca_model.alg_states, self.__pymoca_model.inputs
         ):
@@ -411,7 +411,7 @@ class ModelicaMixin(OptimizationProblem):
     @cached
     def __nominals(self):
         # Make the dict
-        nominal_dict = AliasDict(self.alias_relation)
+        nominal_dict = AliasDict(self.alias_relation, signed_values=False)
 
         # Grab parameters and their values
         parameters = self.parameters(0)
